@@ -2,14 +2,14 @@
 # usage: confirm_seed.sh <seed-dir> <worktree> <demo-test-name>
 # Confirms in a scratch worktree: with the patch the crate builds (default + verif), the existing
 # tests pass and the demonstration fails; without it the demonstration passes.
-S="$1"; W="$2"; T="$3"
+S="$1"; W="$2"; T="$3"; F="$4"   # F: extra cargo args for the demo, e.g. "--features verif"
 export CARGO_TARGET_DIR="$W/target" CARGO_NET_OFFLINE=true
 cd "$W" || exit 2
 git checkout -q -- . ; git apply "$S/patch.diff" || { echo "RESULT patch-does-not-apply"; exit 3; }
 cargo build --offline --features verif >/dev/null 2>&1 && echo "build(verif): ok" || echo "build(verif): FAIL"
 cp "$S/demo.rs" "tests/$T.rs"
 cargo nextest run --workspace --no-fail-fast --tool-config-file pb:/w/lib/nextest.toml --profile pb --test-threads 8 --offline -E 'not binary(/demo/)' 2>&1 | grep -E "Summary|FAIL|TIMEOUT" | head -8
-echo "--- demo WITH change:"; cargo test --offline --test "$T" 2>&1 | grep -E "^test result|panicked" | head -4
+echo "--- demo WITH change:"; cargo test --offline $F --test "$T" 2>&1 | grep -E "^test result|panicked" | head -4
 git checkout -q -- src
-echo "--- demo WITHOUT change:"; cargo test --offline --test "$T" 2>&1 | grep -E "^test result|panicked" | head -4
+echo "--- demo WITHOUT change:"; cargo test --offline $F --test "$T" 2>&1 | grep -E "^test result|panicked" | head -4
 rm -f "tests/$T.rs"; git status --short | head -3
